@@ -1,0 +1,135 @@
+//go:build verif
+
+// Contracts for the store layer: flatBlobAccess over the KeyLocationMap and
+// LocationBlobMap interfaces (properties C01, C04, C05). Comment-only file.
+package local
+
+// ---- ghost state
+// guard(x): identity of the RW lock that guards index/blob-map x.
+// committed(blk, off, size): within the current lock hold, (blk, off, size)
+//   designates bytes of a successfully finalised upload (or a slice of one).
+//   Introduced only by a successful finalizer and by a successful index
+//   lookup; required of everything that is put into the index (K01.4).
+// epoch(lbm): bumped by every allocation/finalisation; a getter is valid only
+//   in the epoch it was made in. All of it is forgotten whenever a lock is
+//   (re)acquired.
+// psize(w): size a put-writer / finalizer was allocated for.
+// gsize(g), gmap(g), gepoch(g): size, owner and epoch of a getter.
+//@ ghost guard(ref) int
+//@ ghost committed(int, int, int) bool
+//@ ghost epoch(ref) int
+//@ ghost psize(ref) int
+//@ ghost pmap(ref) int
+//@ ghost gsize(ref) int
+//@ ghost gmap(ref) int
+//@ ghost gepoch(ref) int
+//@ lockhavoc committed, epoch
+
+//@ linear LocationBlobPutWriter, LocationBlobPutFinalizer
+
+//@ pure sub(blk, off, size) = committed(blk, off, size)
+//@     && (forall o2, s2 :: off <= o2 && 0 <= s2 && o2 + s2 <= off + size ==> committed(blk, o2, s2))
+
+// ksz(key): every location stored under a key has the size that is part of the
+// key (keys are derived from digests, which contain the size). Assumed.
+//@ ufunc ksz(intarr) int
+//@ iface KeyLocationMap.Get
+//@   requires [locked] held(guard(self)) >= 1
+//@   ensures err == nil ==> result0.SizeBytes == ksz(key)
+//@   ensures err == nil ==> result0.BlockIndex >= 0 && result0.OffsetBytes >= 0 && result0.SizeBytes >= 0
+//@         && result0.OffsetBytes + result0.SizeBytes <= 4611686018427387904
+//@         && sub(result0.BlockIndex, result0.OffsetBytes, result0.SizeBytes)
+//@ iface KeyLocationMap.Put
+//@   requires [write-locked] held(guard(self)) == 2
+//@   requires [committed] committed(location.BlockIndex, location.OffsetBytes, location.SizeBytes)
+
+//@ iface LocationBlobMap.Get
+//@   requires [locked] held(guard(self)) >= 1
+//@   requires [committed] committed(location.BlockIndex, location.OffsetBytes, location.SizeBytes)
+//@   ensures gsize(result0) == location.SizeBytes && gmap(result0) == self && gepoch(result0) == epoch(self) && result0 != nil
+//@ iface LocationBlobMap.Put
+//@   requires [write-locked] held(guard(self)) == 2
+//@   requires [size] sizeBytes >= 0
+//@   modifies epoch(self)
+//@   ensures err == nil ==> result0 != nil && psize(result0) == sizeBytes && pmap(result0) == self
+//@   ensures err != nil ==> result0 == nil
+
+// Invoking a getter: under the lock, in the epoch it was made in.
+//@ iface LocationBlobGetter.call
+//@   requires [locked] held(guard(gmap(self))) >= 1
+//@   requires [still-valid] gepoch(self) == epoch(gmap(self))
+//@   ensures result != nil && bsize(result) == gsize(self)
+
+// The writer copies the buffer; B-SIZE: the buffer has the size that was allocated.
+//@ iface LocationBlobPutWriter.call
+//@   requires [b-size] bsize(b) == psize(self)
+//@   ensures result != nil && psize(result) == psize(self) && pmap(result) == pmap(self)
+
+//@ iface LocationBlobPutFinalizer.call
+//@   requires [write-locked] held(guard(pmap(self))) == 2
+//@   modifies committed, epoch(pmap(self))
+//@   ensures forall b, o, s :: old(committed(b, o, s)) ==> committed(b, o, s)
+//@   ensures err == nil ==> result0.BlockIndex >= 0 && result0.OffsetBytes >= 0 && result0.SizeBytes == psize(self)
+//@         && result0.OffsetBytes + result0.SizeBytes <= 4611686018427387904
+//@         && sub(result0.BlockIndex, result0.OffsetBytes, result0.SizeBytes)
+
+// ---- flatBlobAccess
+//@ pure fbaInv(ba) = ba.lock != nil && guard(ba.keyLocationMap) == ba.lock && guard(ba.locationBlobMap) == ba.lock
+//@     && ba.keyLocationMap != nil && ba.locationBlobMap != nil
+//@ pure unlocked(ba) = held(ba.lock) == 0 && held(ba.refreshLock) == 0
+
+//@ func (*flatBlobAccess).finalizePut
+//@   requires fbaInv(ba) && held(ba.lock) == 2 && putFinalizer != nil && pmap(putFinalizer) == ba.locationBlobMap
+//@   modifies committed, epoch(ba.locationBlobMap)
+//@   ensures forall b, o, s :: old(committed(b, o, s)) ==> committed(b, o, s)
+//@   ensures err == nil ==> result0.SizeBytes == psize(putFinalizer) && result0.BlockIndex >= 0 && result0.OffsetBytes >= 0
+//@         && result0.OffsetBytes + result0.SizeBytes <= 4611686018427387904
+//@         && sub(result0.BlockIndex, result0.OffsetBytes, result0.SizeBytes)
+
+//@ func (*flatBlobAccess).Put
+//@   requires fbaInv(ba) && unlocked(ba) && b != nil
+
+//@ func (*flatBlobAccess).Get
+//@   requires fbaInv(ba) && unlocked(ba)
+//@   ensures result != nil
+
+// The refresh task of Get: owns the second clone and the put-writer.
+//@ func (*flatBlobAccess).Get$1
+//@   requires fbaInv(ba) && unlocked(ba) && putWriter != nil && b2 != nil && bsize(b2) == psize(putWriter)
+//@         && pmap(putWriter) == ba.locationBlobMap
+
+//@ func (*flatBlobAccess).FindMissing
+//@   requires fbaInv(ba) && unlocked(ba)
+//@   loop 0 invariant -1 <= rangeindex && rangeindex < len(digests.digests) && len(keys) == rangeindex + 1
+//@   loop 0 invariant unlocked(ba)
+//@   loop 1 invariant held(ba.lock) == 1 && held(ba.refreshLock) == 0 && len(keys) == len(digests.digests)
+//@   loop 1 invariant -1 <= rangeindex && rangeindex < len(digests.digests)
+//@   loop 1 invariant forall x :: x != ba.lock ==> held(x) == old(held(x))
+//@   loop 2 invariant held(ba.lock) == 2 && held(ba.refreshLock) == 2 && -1 <= rangeindex
+//@   loop 2 invariant forall x :: x != ba.lock && x != addr(ba.refreshLock) ==> held(x) == old(held(x))
+
+//@ func (*flatBlobAccess).GetFromComposite
+//@   requires fbaInv(ba) && unlocked(ba) && slicer != nil
+//@   ensures result != nil
+// The refresh task (GetFromComposite$1) has run by the time Slice has consumed
+// the parent buffer (WithTask, C15): putFinalizer then is the finalizer of the
+// allocation made for the parent. Not derivable by a modular verifier.
+//@   callassume (*flatBlobAccess).finalizePut putFinalizer != nil && pmap(putFinalizer) == ba.locationBlobMap
+//@         && psize(putFinalizer) == parentLocation.SizeBytes
+//@   loop 0 invariant -1 <= rangeindex && rangeindex < len(slices) && len(sliceKeys) == rangeindex + 1
+//@   loop 0 invariant forall i :: 0 <= i && i < len(slices) ==> 0 <= slices[i].OffsetBytes
+//@         && 0 <= slices[i].SizeBytes && slices[i].OffsetBytes + slices[i].SizeBytes <= parentLocation.SizeBytes
+//@   loop 0 invariant held(ba.lock) == 0 && held(ba.refreshLock) == 2
+//@   loop 0 invariant forall x :: x != ba.lock && x != addr(ba.refreshLock) ==> held(x) == old(held(x))
+//@   loop 1 invariant -1 <= rangeindex && len(sliceKeys) == len(slices)
+//@   loop 1 invariant held(ba.lock) == 2 && held(ba.refreshLock) == 2
+//@   loop 1 invariant forall x :: x != ba.lock && x != addr(ba.refreshLock) ==> held(x) == old(held(x))
+//@   loop 1 invariant sub(parentLocation.BlockIndex, parentLocation.OffsetBytes, parentLocation.SizeBytes)
+//@   loop 1 invariant parentLocation.OffsetBytes >= 0 && parentLocation.OffsetBytes + parentLocation.SizeBytes <= 4611686018427387904
+//@   loop 1 invariant forall i :: 0 <= i && i < len(slices) ==> 0 <= slices[i].OffsetBytes && 0 <= slices[i].SizeBytes
+//@         && slices[i].OffsetBytes + slices[i].SizeBytes <= parentLocation.SizeBytes
+
+// The refresh task of GetFromComposite: copies the parent into its new place
+// and leaves the finalizer for the caller.
+//@ func (*flatBlobAccess).GetFromComposite$1
+//@   requires putWriter != nil && bParent2 != nil && bsize(bParent2) == psize(putWriter) && putFinalizer == nil
